@@ -71,7 +71,7 @@ BIG = Fraction(10) ** 40
 # (pixel_scales, origin) of the mask: the fit never looks at them
 GEOMS = [(1.0, (0.0, 0.0)), ((2.0, 0.5), (1.0, -3.0)), (0.05, (0.0, 0.0)), ((0.25, 3.0), (-7.5, 2.0))]
 ROUTES = {"slim": ["fresh", "arith", "view", "copy", "native_slim", "from_native2d", "apply_mask", "trimmed"],
-          "native": ["fresh", "arith", "view", "copy", "native_of_slim", "trimmed"],
+          "native": ["fresh", "arith", "view", "copy", "native_of_slim", "native_of_native", "trimmed"],
           "native_nomask": ["fresh", "arith", "view", "copy"]}
 READS = ["data", "residual", "normres", "chimap", "chi2", "redchi2", "nn", "ll", "llreg", "evidence", "fom", "rff", "snr"]
 
@@ -184,7 +184,7 @@ def gen_fit(rng, h, w, maskbits, mode, sky, invkind, via, route="fresh", geom=0,
     operation stays exact; special: None | 'zero_residual' | 'zero_data' | 'constant'"""
     n = h * w
     ed, en = scale
-    zero_masked = route in ("native_of_slim", "trimmed") or route in ("apply_mask",)
+    zero_masked = route in ("native_of_slim", "native_of_native", "trimmed", "apply_mask")
     d, nz, m = [], [], []
     cd, cn, cm = rnd_val(rng), rng.choice(NOISE), rnd_val(rng)
     for i in range(n):
@@ -516,6 +516,7 @@ def make_array(aa, mask, maskarr, v, mode, route):
     if route == "view": return fresh()[:]
     if route == "copy": return copy.copy(fresh())
     if route == "native_of_slim": return aa.Array2D(values=v[~maskarr], mask=mask).native   # zeros in masked pixels
+    if route == "native_of_native": return fresh().native          # .native of a natively stored array: masked pixels zeroed
     return fresh()
 
 def build_env(inp):
